@@ -192,8 +192,23 @@ func init() {
 		tfset, tf := parseFile("src/test/test_step.go")
 		tfd := findFunc(tf, "", "test")
 		c11DropLogs(tfd)
-		c11Pin("needToRun", c11Text(tfset, c11Closure(tfd, "needToRun").Body), `{
-			if state.ForceRerun { return true }
+		// needToRun: the leading `if <guard> { return true }` statements are TRANSLATED into Gen `need_to_run_guards`
+		// (Model/C11.v interprets them: a run that one of them catches never reuses a result); the rest is pinned.
+		ntr := c11Closure(tfd, "needToRun").Body.List
+		runGuards := []string{}
+		for len(ntr) > 0 {
+			switch c11Text(tfset, ntr[0]) {
+			case c11Norm(`if state.ForceRerun { return true }`):
+				runGuards = append(runGuards, "NGForceRerun")
+			case c11Norm(`if len(state.TestArgs) > 0 { return true }`):
+				runGuards = append(runGuards, "NGArgs")
+			default:
+				goto guardsDone
+			}
+			ntr = ntr[1:]
+		}
+	guardsDone:
+		c11Pin("needToRun (after its leading guards)", c11Text(tfset, &ast.BlockStmt{List: ntr}), `{
 			if s := target.State(); (s == core.Unchanged || s == core.Reused) && core.PathExists(target.TestResultsFile()) {
 				if needCoverage && !verifyHash(state, target.CoverageFile(), hash) {
 					return true
@@ -463,6 +478,9 @@ func init() {
 		b.WriteString("   (the plain-string form only, empty for a per-config dict). *)\n")
 		b.WriteString("Inductive rwrite := RWTestOutputs | RWSandbox | RWTestCmdEffective | RWTestCmdSingle | RWArgsPlaceholder.\n")
 		fmt.Fprintf(&b, "Definition rule_test_writes : list rwrite := [%s].\n", strings.Join(ruleWrites, "; "))
+		b.WriteString("(* needToRun (src/test/test_step.go): its leading `if <guard> { return true }` statements, in order. *)\n")
+		b.WriteString("Inductive run_guard := NGForceRerun | NGArgs.\n")
+		fmt.Fprintf(&b, "Definition need_to_run_guards : list run_guard := [%s].\n", strings.Join(runGuards, "; "))
 		b.WriteString("(* cacheOutputFiles (src/test/test_step.go): its guards and effects, in order. *)\n")
 		b.WriteString("Inductive store_step := SGuardArgs | SGuardFailures | SMoveResults | SCacheStore.\n")
 		fmt.Fprintf(&b, "Definition store_steps : list store_step := [%s].\n", strings.Join(storeSteps, "; "))
